@@ -26,6 +26,12 @@ def ws_norm(s):
     return WS.sub(" ", s)
 
 
+def fuzzy_norm(s):
+    """what the engine's tolerant matcher may treat as equal: whitespace runs (paragraph separators included)
+    and bold/italic markers next to them"""
+    return WS.sub(" ", s.replace("*", "").replace("_", ""))
+
+
 class ParaView:
     """accepted-view and raw-view character lists of one paragraph with attributes"""
 
@@ -84,6 +90,8 @@ def pick_target(rng, pv, texts, tries=12, min_len=2, max_len=18, states=("plain"
         if cc != 1 or cr > 1:
             continue
         if count_occ(ws_norm(texts["clean"]), ws_norm(target)) != 1 or count_occ(ws_norm(texts["raw"]), ws_norm(target)) > 1:
+            continue
+        if count_occ(fuzzy_norm(texts["clean"]), fuzzy_norm(target)) != 1:
             continue
         # does the range jump over deleted text (then only the accepted view contains it)?
         i0, i1 = pv.chars.index(seg[0]), pv.chars.index(seg[-1])
@@ -144,7 +152,7 @@ class WordSource:
         return self.rng.choice(["Zq", "Vx", "Kj", "Wy"]) + f"{self.n}" + self.rng.choice(["", "a", "bc"])
 
 
-def gen_batch(rng, doc, texts, n_edits, kinds, states=("plain",), comment_p=0.0, allow_same_para=True):
+def gen_batch(rng, doc, texts, n_edits, kinds, states=("plain",), comment_p=0.0, allow_same_para=True, same_para_bias=0.5):
     """Non-overlapping exact unique targets; -> list of edit dicts (target, new, comment, where...)."""
     pvs = [ParaView(si, pi, p) for pi, (si, p) in enumerate(sem.all_paragraphs(doc))]
     pvs = [pv for pv in pvs if len(pv.acc) >= 2]
@@ -155,6 +163,9 @@ def gen_batch(rng, doc, texts, n_edits, kinds, states=("plain",), comment_p=0.0,
         if len(edits) >= n_edits or not pvs:
             break
         pv = rng.choice(pvs)
+        if edits and rng.random() < same_para_bias:
+            # cluster edits in paragraphs that are already being edited (same run, neighbouring runs)
+            pv = next((x for x in pvs if x.pi == rng.choice(edits)["pi"]), pv)
         t = pick_target(rng, pv, texts, states=states)
         if not t:
             continue
@@ -190,3 +201,97 @@ def expected_accepted(doc, edits):
 
 def accepted_paragraph_texts(doc):
     return [ParaView(si, pi, p).accepted_text() for pi, (si, p) in enumerate(sem.all_paragraphs(doc))]
+
+
+# ------------------------------------------------------------------------------------------------
+# mixed / conflicting batches (C01, C08, C09, C10)
+# ------------------------------------------------------------------------------------------------
+KINDS_ALL = KINDS_C02 + ["same", "multiline", "markdown", "heading", "literal"]
+
+
+def _range_edit(rng, pv, texts, a, b, word, kind=None):
+    seg = pv.acc[a:b]
+    if not seg or not stretch_ok(seg) or seg[0]["state"] != "plain":
+        return None
+    target = "".join(c["c"] for c in seg)
+    if not target.strip():
+        return None
+    if count_occ(texts["clean"], target) != 1 or count_occ(texts["raw"], target) > 1:
+        return None
+    if count_occ(ws_norm(texts["clean"]), ws_norm(target)) != 1 or count_occ(ws_norm(texts["raw"]), ws_norm(target)) > 1:
+        return None
+    if count_occ(fuzzy_norm(texts["clean"]), fuzzy_norm(target)) != 1:
+        return None
+    kind = kind or rng.choice(KINDS_C02)
+    i0, i1 = pv.chars.index(seg[0]), pv.chars.index(seg[-1])
+    return {"si": pv.si, "pi": pv.pi, "a": a, "b": b, "target": target, "kind": kind, "new": new_text_for(rng, target, kind, word),
+            "comment": None, "locatable": True, "in_raw": count_occ(texts["raw"], target) == 1,
+            "over_del": any(c["state"] == "del" for c in pv.chars[i0:i1 + 1])}
+
+
+def pick_deleted(rng, pv, texts):
+    dels = [i for i, c in enumerate(pv.chars) if c["state"] == "del"]
+    if len(dels) < 3:
+        return None
+    i = rng.choice(dels)
+    j = i
+    while j + 1 < len(pv.chars) and pv.chars[j + 1]["state"] == "del" and pv.chars[j + 1]["rid"] == pv.chars[i]["rid"] and j - i < 8:
+        j += 1
+    seg = pv.chars[i:j + 1]
+    if len(seg) < 3 or not stretch_ok(seg):
+        return None
+    target = "".join(c["c"] for c in seg)
+    if not target.strip() or target != target.strip():
+        return None
+    if count_occ(texts["raw"], target) != 1 or count_occ(texts["clean"], target) != 0:
+        return None
+    # must not be locatable by the whitespace-tolerant matcher either
+    if count_occ(fuzzy_norm(texts["clean"]), fuzzy_norm(target)) != 0:
+        return None
+    return target
+
+
+def gen_mixed_batch(rng, doc, texts, n_edits, kinds=None, comment_p=0.3, conflicts=False, extras=True):
+    """Found edits of every kind + (extras) not-found / empty-target edits + (conflicts) duplicate / overlapping /
+    nested / inside-deleted-text edits, shuffled. Single-line kinds only when `conflicts` (the C08 oracle works on
+    paragraph strings)."""
+    kinds = kinds or (KINDS_C02 + ["same"] if conflicts else KINDS_ALL)
+    word = WordSource(rng)
+    base = gen_batch(rng, doc, texts, n_edits, kinds, comment_p=comment_p)
+    for e in base:
+        e["locatable"] = True
+    edits = list(base)
+    pvs = {pv.pi: pv for pv in (ParaView(si, pi, p) for pi, (si, p) in enumerate(sem.all_paragraphs(doc)))}
+    if conflicts and base:
+        for _ in range(rng.randint(1, 3)):
+            e = rng.choice(base)
+            pv = pvs[e["pi"]]
+            c = rng.random()
+            if c < 0.3:   # duplicate target, different new text
+                edits.append(dict(e, new=new_text_for(rng, e["target"], "replace", word), kind="dup", comment=None))
+            elif c < 0.65:  # overlapping
+                a = rng.randint(max(0, e["a"] - 4), max(e["a"], e["b"] - 1))
+                b = rng.randint(max(a + 1, e["a"] + 1), min(len(pv.acc), e["b"] + 5))
+                x = _range_edit(rng, pv, texts, a, b, word)
+                if x and (x["a"], x["b"]) != (e["a"], e["b"]):
+                    edits.append(x)
+            else:  # nested
+                if e["b"] - e["a"] >= 4:
+                    a = rng.randint(e["a"], e["b"] - 2)
+                    b = rng.randint(a + 1, e["b"])
+                    x = _range_edit(rng, pv, texts, a, b, word)
+                    if x and (x["a"], x["b"]) != (e["a"], e["b"]):
+                        edits.append(x)
+        for pv in rng.sample(list(pvs.values()), min(3, len(pvs))):
+            t = pick_deleted(rng, pv, texts)
+            if t and rng.random() < 0.7:
+                edits.append({"target": t, "new": word(), "kind": "in_deleted", "comment": None, "locatable": False,
+                              "pi": pv.pi, "a": -1, "b": -1})
+    if extras:
+        if rng.random() < 0.5:
+            edits.append({"target": "Qzx" + word(), "new": word(), "kind": "not_found", "comment": "c" if rng.random() < 0.3 else None,
+                          "locatable": False, "pi": -1, "a": -1, "b": -1})
+        if rng.random() < 0.3:
+            edits.append({"target": "", "new": word(), "kind": "empty_target", "comment": None, "locatable": False, "pi": -1, "a": -1, "b": -1})
+    rng.shuffle(edits)
+    return edits
